@@ -156,13 +156,17 @@ impl Abs {
 
 // ------------------------------------------------------------------------------------------ events
 #[derive(Clone)]
-enum Ev { Propose(Block), Vote(Vote), Timeout(Timeout), TC(TC), Timer, Loop, LoopAll, Batch(u8), Dig(u8) }
+enum Ev { Propose(Block), Vote(Vote), Timeout(Timeout), TC(TC), Timer, Loop, LoopAll, LoopOld, Batch(u8), Dig(u8) }
 
 struct Cfg { n: usize, me: usize, stakes: Vec<u32>, quorum: u32 }
 impl Cfg {
     // a random set of signers whose stake reaches the quorum (plus possibly some extra)
     fn quorum_set(&self, rng: &mut StdRng, extra: bool) -> Vec<usize> {
-        let mut all: Vec<usize> = (0..self.n).filter(|&i| self.stakes[i] > 0).collect();
+        // never forge a signature of the node under test if the others hold a quorum
+        let others: u32 = (0..self.n).filter(|&i| i != self.me).map(|i| self.stakes[i]).sum();
+        let excl_me = others >= self.quorum;
+        if !excl_me { inadmissible(); }
+        let mut all: Vec<usize> = (0..self.n).filter(|&i| self.stakes[i] > 0 && !(excl_me && i == self.me)).collect();
         all.shuffle(rng);
         let mut w = 0u32; let mut out = vec![];
         for a in all { if w >= self.quorum && !(extra && rng.gen_bool(0.3)) { break; } w += self.stakes[a]; out.push(a); }
@@ -184,6 +188,10 @@ fn gen_chain(rng: &mut StdRng, abs: &mut Abs, cfg: &Cfg, e: &mut Emit, boost: u6
     let mut tip: Option<Block> = None;
     let mut round = 0u64;
     let len = rng.gen_range(3, 10);
+    // half of the chain cases stay within the fault model (simulated members report what they must hold, nobody extends an
+    // abandoned branch): the agreement-based monitors apply to those; the other half is adversarial beyond it
+    let faithful = rng.gen_bool(0.5);
+    if faithful { e.stat("chain:faithful", 1); }
     for _ in 0..len {
         let gap = if rng.gen_bool(0.35) { rng.gen_range(1, 4u64) } else { 0 };
         round += 1 + gap;
@@ -194,13 +202,14 @@ fn gen_chain(rng: &mut StdRng, abs: &mut Abs, cfg: &Cfg, e: &mut Emit, boost: u6
         // mostly extend the tip; sometimes (after a gap) extend an OLDER certified block than the one the node already holds a
         // QC for, justified by a TC whose reported rounds lie between the two (the shape a Byzantine leader would try)
         let tip_round = tip.as_ref().map(|t| t.round).unwrap_or(0);
-        let older: Option<Block> = if gap > 0 && blocks.len() >= 2 && rng.gen_bool(if boost > 1 { 0.5 } else { 0.25 }) { e.stat("extends_older_block", 1); Some(blocks[rng.gen_range(0, blocks.len() - 1)].clone()) } else { None };
+        let older: Option<Block> = if !faithful && gap > 0 && blocks.len() >= 2 && rng.gen_bool(if boost > 1 { 0.5 } else { 0.25 }) { e.stat("extends_older_block", 1); inadmissible(); Some(blocks[rng.gen_range(0, blocks.len() - 1)].clone()) } else { None };
         let base = older.clone().or(tip.clone());
         let (qc, qr) = match &base { Some(t) => (abs.mk_qc(t, &signers), t.round), None => (QC::genesis(), 0) };
         let tc = if gap > 0 {
             let s2 = cfg.quorum_set(rng, false);
             // reported high-QC rounds: mostly <= the block's QC round, sometimes above it (then the block is not votable)
-            let hqs: Vec<(usize, u64)> = s2.iter().map(|&a| (a, if older.is_some() && tip_round > qr && rng.gen_bool(0.7) { rng.gen_range(qr, tip_round + 1) } else if rng.gen_bool(0.12) { e.stat("tc_hq_above_qc", 1); qr + rng.gen_range(1, 3) } else if qr > 0 && rng.gen_bool(0.4) { rng.gen_range(0, qr + 1) } else { qr })).collect();
+            let hqs: Vec<(usize, u64)> = s2.iter().map(|&a| (a, if faithful { qr } else if older.is_some() && tip_round > qr && rng.gen_bool(0.7) { rng.gen_range(qr, tip_round + 1) } else if rng.gen_bool(0.12) { e.stat("tc_hq_above_qc", 1); qr + rng.gen_range(1, 3) } else if qr > 0 && rng.gen_bool(0.4) { rng.gen_range(0, qr + 1) } else { qr })).collect();
+            if hqs.iter().any(|&(_, h)| h != qr) { inadmissible(); }   // a member reporting another high-QC round than the one it must hold
             let tcr = if rng.gen_bool(0.1) { e.stat("tc_wrong_round", 1); round.saturating_sub(2) } else { round - 1 };
             Some(abs.mk_tc(tcr, &hqs))
         } else { None };
@@ -230,15 +239,17 @@ fn gen_chain(rng: &mut StdRng, abs: &mut Abs, cfg: &Cfg, e: &mut Emit, boost: u6
         if !late.is_empty() { e.stat("payload_late", 1); late.shuffle(rng); for k in late { if rng.gen_bool(0.3) { evs.push(Ev::Loop); } evs.push(Ev::Batch(k)); have.push(k); } }
         if rng.gen_bool(0.5) { evs.push(Ev::Loop); }
         if rng.gen_bool(0.2) {
-            let b = &blocks[i]; let a = rng.gen_range(0, cfg.n);
+            let b = &blocks[i]; let a = (cfg.me + 1 + rng.gen_range(0, cfg.n - 1)) % cfg.n;   // never a forged vote of the node itself
             evs.push(Ev::Vote(abs.mk_vote(a, b)));
         }
         if rng.gen_bool(0.15) {
-            let r = blocks[i].round + rng.gen_range(0, 2); let a = rng.gen_range(0, cfg.n);
-            evs.push(Ev::Timeout(abs.mk_timeout(a, r, if rng.gen_bool(0.5) { QC::genesis() } else { blocks[i].qc.clone() })));
+            let r = blocks[i].round + rng.gen_range(0, 2); let a = (cfg.me + 1 + rng.gen_range(0, cfg.n - 1)) % cfg.n;
+            let low = !faithful && rng.gen_bool(0.5); if low && blocks[i].qc.round > 0 { inadmissible(); }
+            evs.push(Ev::Timeout(abs.mk_timeout(a, r, if low { QC::genesis() } else { blocks[i].qc.clone() })));
         }
-        if rng.gen_bool(0.1) { let r = blocks[i].round; let s = cfg.quorum_set(rng, false); let hqs: Vec<(usize, u64)> = s.iter().map(|&a| (a, 0)).collect(); evs.push(Ev::TC(abs.mk_tc(r, &hqs))); }
-        if rng.gen_bool(0.1) { evs.push(Ev::Dig(rng.gen_range(1, 13))); }
+        if rng.gen_bool(0.1) { let r = blocks[i].round; let hq = blocks[i].qc.round; let s = cfg.quorum_set(rng, false); let hqs: Vec<(usize, u64)> = s.iter().map(|&a| (a, hq)).collect(); evs.push(Ev::TC(abs.mk_tc(r, &hqs))); }
+        // the mempool hands a digest to the proposer only after the batch is stored (Processor order; C13): keep that order
+        if rng.gen_bool(0.15) && !have.is_empty() { let k = have[rng.gen_range(0, have.len())]; evs.push(Ev::Dig(k)); }
     }
     for _ in 0..4 { evs.push(Ev::Loop); }
     evs
@@ -250,6 +261,10 @@ fn gen_chain(rng: &mut StdRng, abs: &mut Abs, cfg: &Cfg, e: &mut Emit, boost: u6
 // expiries and duplicates: the QC path, the TC path, and every race between them (late votes after a TC, a late TC
 // after the QC, ...), followed by the loop-backs of the node's own proposals.
 thread_local! { static CLEAN_LEADER: std::cell::Cell<Option<u64>> = std::cell::Cell::new(None); }
+// Is the generated history within the fault model (no forged signature of the node under test, one certified chain, simulated
+// members report high-QC rounds consistent with what they voted)? Only then do the agreement-based monitors (C02's global chain) apply.
+thread_local! { static ADMISSIBLE: std::cell::Cell<bool> = std::cell::Cell::new(true); }
+fn inadmissible() { ADMISSIBLE.with(|c| c.set(false)); }
 fn gen_leader(rng: &mut StdRng, abs: &mut Abs, cfg: &Cfg, e: &mut Emit) -> Vec<Ev> {
     let mut clean = true;
     let n = cfg.n as u64;
@@ -287,7 +302,7 @@ fn gen_leader(rng: &mut StdRng, abs: &mut Abs, cfg: &Cfg, e: &mut Emit) -> Vec<E
     if !happy && rng.gen_bool(0.2) { clean = false; // a conflicting block of the same round with votes for it
         let f = abs.mk_block(qc_prev.clone(), None, big_r, vec![batch_digest(13)]);
         for a in 0..cfg.n { if a != cfg.me && rng.gen_bool(0.5) { pool.push(Ev::Vote(abs.mk_vote(a, &f))); } }
-        e.stat("leader:conflicting_votes", 1);
+        e.stat("leader:conflicting_votes", 1); inadmissible();
     }
     pool.shuffle(rng);
     if clean { e.stat("leader:clean_happy_path", 1); }
@@ -296,7 +311,7 @@ fn gen_leader(rng: &mut StdRng, abs: &mut Abs, cfg: &Cfg, e: &mut Emit) -> Vec<E
     evs.push(Ev::LoopAll); evs.push(Ev::LoopAll);
     // one more round on top of whatever the node proposed is left to the loop-backs; add stale leftovers
     if rng.gen_bool(0.5) { let a = rng.gen_range(0, cfg.n); evs.push(Ev::Vote(abs.mk_vote(a, &b_r))); }
-    if rng.gen_bool(0.5) { let s2 = cfg.quorum_set(rng, false); evs.push(Ev::TC(abs.mk_tc(big_r, &s2.iter().map(|&a| (a, 0)).collect::<Vec<_>>()))); }
+    if rng.gen_bool(0.5) { let s2 = cfg.quorum_set(rng, false); let hq = qc_prev.round; evs.push(Ev::TC(abs.mk_tc(big_r, &s2.iter().map(|&a| (a, hq)).collect::<Vec<_>>()))); }
     evs.push(Ev::LoopAll);
     evs
 }
@@ -315,8 +330,8 @@ fn gen_malformed(rng: &mut StdRng, abs: &mut Abs, cfg: &Cfg, e: &mut Emit) -> Ve
         let tc = if gap > 0 { let s2 = cfg.quorum_set(rng, false); Some(abs.mk_tc(round - 1, &s2.iter().map(|&a| (a, qr)).collect::<Vec<_>>())) } else { None };
         let good = abs.mk_block(qc.clone(), tc.clone(), round, vec![]);
         let out = cfg.n; // outsider index
-        let m = rng.gen_range(0, 14);
-        let kind = ["qc_repeat_signer", "qc_nonmember", "qc_subquorum", "qc_sig_transplant_round", "qc_sig_from_timeout", "block_wrong_leader", "block_bad_sig", "block_resigned_field", "tc_repeat_signer", "tc_subquorum", "tc_sig_wrong_hq", "vote_bad", "timeout_bad", "tc_msg_bad"][m];
+        let m = rng.gen_range(0, 16);
+        let kind = ["qc_repeat_signer", "qc_nonmember", "qc_subquorum", "qc_sig_transplant_round", "qc_sig_from_timeout", "block_wrong_leader", "block_bad_sig", "block_resigned_field", "tc_repeat_signer", "tc_subquorum", "tc_sig_wrong_hq", "vote_bad", "timeout_bad", "tc_msg_bad", "qc_round0_naming_a_block", "timeout_qc_round0_naming_a_block"][m];
         e.stat(&format!("mut:{}", kind), 1);
         match m {
             0 if !qc.votes.is_empty() => { let mut q = qc.clone(); let v = q.votes[0].clone(); q.votes.push(v); evs.push(Ev::Propose(abs.mk_block(q, tc.clone(), round, vec![]))); }
@@ -332,6 +347,9 @@ fn gen_malformed(rng: &mut StdRng, abs: &mut Abs, cfg: &Cfg, e: &mut Emit) -> Ve
             10 => { let s2 = cfg.quorum_set(rng, false); let mut t = abs.mk_tc(round, &s2.iter().map(|&a| (a, 0)).collect::<Vec<_>>()); t.votes[0].2 = 1; evs.push(Ev::TC(t)); }
             11 => { let a = rng.gen_range(0, cfg.n); let mut v = abs.mk_vote(a, &good); match rng.gen_range(0, 3) { 0 => v.round += 1, 1 => v.author = abs.key((a + 1) % cfg.n).0, _ => v.author = abs.outsider.0 }; evs.push(Ev::Vote(v)); }
             12 => { let a = rng.gen_range(0, cfg.n); let mut t = abs.mk_timeout(a, round, qc.clone()); match rng.gen_range(0, 3) { 0 => t.round += 1, 1 => t.high_qc = QC::genesis(), _ => { if !t.high_qc.votes.is_empty() { t.high_qc.votes.pop(); } else { t.author = abs.outsider.0; } } }; evs.push(Ev::Timeout(t)); }
+            // an uncertified "QC" that is not the genesis certificate: round 0 but naming a real block, no votes
+            14 if tip.is_some() => { let t = tip.clone().unwrap(); let q = QC { hash: t.digest(), round: 0, votes: vec![] }; evs.push(Ev::Propose(abs.mk_block(q, tc.clone(), round, vec![]))); }
+            15 if tip.is_some() => { let t = tip.clone().unwrap(); let a = (cfg.me + 1) % cfg.n; let q = QC { hash: t.digest(), round: 0, votes: vec![] }; evs.push(Ev::Timeout(abs.mk_timeout(a, round, q))); }
             13 => { let s2 = cfg.quorum_set(rng, false); let mut t = abs.mk_tc(round, &s2.iter().map(|&a| (a, 0)).collect::<Vec<_>>()); let s = abs.sign_timeout(out, round, 0); t.votes.push((abs.outsider.0, s, 0)); evs.push(Ev::TC(t)); }
             _ => {}
         }
@@ -363,10 +381,25 @@ fn gen_script(name: &str, abs: &mut Abs, _cfg: &Cfg) -> Vec<Ev> {
         "c02_genesis" => chain(abs, &[(3, 0, Some((2, 0))), (4, 1, None), (5, 2, None)]),
         "c02_duplicate" => chain(abs, &[(1, 0, None), (2, 1, None), (3, 2, None), (6, 1, Some((5, 1))), (7, 4, None), (8, 5, None)]),
         "c02_long_gap" => chain(abs, &[(1, 0, None), (2, 1, None), (5, 2, Some((4, 2))), (9, 3, Some((8, 5))), (10, 4, None), (11, 5, None), (12, 6, None)]),
+        // a lagging node that learns A6 <- A5 <- A1 newest first (it votes for none of them) is then shown X: a round-4 block by the
+        // round-4 leader carrying a valid TC of round 3 and the QC of A5 (round 5, NOT lower than the block's round). The node is in
+        // round 6 by then: it must not vote for X.
+        "c03_stale_round" => {
+            // (beyond the fault model on purpose: A5 is certified although no honest node could vote for it)
+            inadmissible();
+            let a1 = abs.mk_block(QC::genesis(), None, 1, vec![]);
+            let q1 = abs.mk_qc(&a1, &[0, 1, 2]);
+            let a5 = abs.mk_block(q1, None, 5, vec![]);                       // round gap without a TC: storable, never votable
+            let q5 = abs.mk_qc(&a5, &[0, 1, 2]);
+            let a6 = abs.mk_block(q5.clone(), None, 6, vec![]);
+            let t3 = abs.mk_tc(3, &[(0, 1), (1, 1), (2, 1)]);
+            let x = abs.mk_block(q5, Some(t3), 4, vec![batch_digest(13)]);     // round 4, QC of round 5
+            vec![Ev::Propose(a6), Ev::Propose(a5), Ev::Propose(a1), Ev::LoopOld, Ev::Batch(13), Ev::Propose(x), Ev::LoopAll]
+        }
         _ => vec![],
     }
 }
-const SCRIPTS: [&str; 4] = ["c02_order", "c02_genesis", "c02_duplicate", "c02_long_gap"];
+const SCRIPTS: [&str; 5] = ["c02_order", "c02_genesis", "c02_duplicate", "c02_long_gap", "c03_stale_round"];
 
 // ------------------------------------------------------------------------------------------ the real node
 async fn settle() { for _ in 0..96 { tokio::task::yield_now().await; } }
@@ -393,6 +426,8 @@ async fn run_case(seed: u64, case: usize, script: Option<&str>, dbroot: &str, e:
     if stakes.iter().any(|&x| x != 1) { e.stat("weighted", 1); }
 
     CLEAN_LEADER.with(|c| c.set(None));
+    ADMISSIBLE.with(|c| c.set(true));
+    if script.is_none() && (kind == 3 || kind == 6) { inadmissible(); }   // the malformed stream is about rejection, not about the committed chain
     let evs: Vec<Ev> = match (script, kind) {
         (Some(s), _) => gen_script(s, &mut abs, &cfg),
         (None, 3) | (None, 6) => gen_malformed(&mut rng, &mut abs, &cfg, e),
@@ -410,7 +445,9 @@ async fn run_case(seed: u64, case: usize, script: Option<&str>, dbroot: &str, e:
     let (tx_proposer, mut rx_proposer) = channel(10_000);
     let (tx_prop_real, rx_prop_real) = channel(10_000);
     let (tx_mempool, mut rx_mempool) = channel(10_000);
-    let (tx_commit, mut rx_commit) = channel(10_000);
+    // a commit channel of capacity ONE and an application that consumes only while the core is waiting on it (plus what is buffered
+    // when the dispatch returns): delivery that is not done by the core itself, in order, before the dispatch returns shows up
+    let (tx_commit, mut rx_commit) = channel(1);
     let (tx_digest, rx_digest) = channel::<Digest>(10_000);
     let (_d, rx_dummy) = channel(10);
     let sigs = SignatureService::new(secret);
@@ -435,15 +472,33 @@ async fn run_case(seed: u64, case: usize, script: Option<&str>, dbroot: &str, e:
             Some(Ev::TC(tc)) => { out.hexmsgs.push(hex(&bincode::serialize(&ConsensusMessage::TC(tc.clone())).unwrap())); (format!("EvTC {}", abs.tc(&tc)), format!("tc r{}", tc.round), Some(VerifEvent::Message(ConsensusMessage::TC(tc)))) }
             Some(Ev::Timer) => ("EvTimer".into(), "timer".into(), Some(VerifEvent::Timer)),
             Some(Ev::Loop) => { if pool.is_empty() { continue; } let b = pool.remove(rng.gen_range(0, pool.len())); let nm = abs.block(&b); (format!("EvLoopback {}", nm), format!("loopback r{}", b.round), Some(VerifEvent::Loopback(b))) }
+            // take the lowest-round block out of the loop-back pool (scripted scenarios)
+            Some(Ev::LoopOld) => { if pool.is_empty() { continue; } let i = (0..pool.len()).min_by_key(|&i| pool[i].round).unwrap(); let b = pool.remove(i); let nm = abs.block(&b); (format!("EvLoopback {}", nm), format!("loopback r{}", b.round), Some(VerifEvent::Loopback(b))) }
             Some(Ev::LoopAll) => { for _ in 0..pool.len() { queue.push_front(Some(Ev::Loop)); } continue; }
             Some(Ev::Batch(k)) => { store.write(batch_digest(k).to_vec(), vec![k]).await; (format!("EvBatch {}", k), format!("batch {}", k), None) }
             Some(Ev::Dig(k)) => { tx_digest.send(batch_digest(k)).await.unwrap(); (format!("EvDigest {}", k), format!("digest {}", k), None) }
         };
         e.stat(&format!("ev:{}", human.split(' ').next().unwrap()), 1);
+        let mut step_commits: Vec<Block> = vec![];
         let res: &str = match ve {
-            Some(ve) => match std::panic::AssertUnwindSafe(core.verif_event(ve)).catch_unwind().await { Ok(Ok(())) => "KOk", Ok(Err(_)) => "KErr", Err(_) => "KPanic" },
+            Some(ve) => {
+                let fut = std::panic::AssertUnwindSafe(core.verif_event(ve)).catch_unwind();
+                tokio::pin!(fut);
+                // the application takes ONE block only when the dispatch has made no progress for 200 scheduler turns, i.e. when the
+                // core is waiting for room in the commit channel: a core that delivers by itself is never starved, and deliveries
+                // handed to other tasks pile up behind the full channel, where their relative order is at the mercy of the scheduler
+                let mut idle = 0u32;
+                let r = loop {
+                    tokio::select! { biased;
+                        r = &mut fut => break r,
+                        _ = tokio::task::yield_now() => { idle += 1; if idle % 200 == 0 { if let Ok(b) = rx_commit.try_recv() { step_commits.push(b); } } }
+                    }
+                };
+                match r { Ok(Ok(())) => "KOk", Ok(Err(_)) => "KErr", Err(_) => "KPanic" }
+            }
             None => "KOk",
         };
+        if let Ok(b) = rx_commit.try_recv() { step_commits.push(b); }   // what the dispatch left in the buffer (capacity one)
         settle().await;
         let pms = drain(&mut rx_proposer);
         let mut prop_terms = vec![];
@@ -471,7 +526,7 @@ async fn run_case(seed: u64, case: usize, script: Option<&str>, dbroot: &str, e:
                 ConsensusMessage::SyncRequest(d, _) => { e.stat("out:sync", 1); net_terms.push(format!("OSyncReq {} {}", addr.port() - 9000, abs.dg(&d))) }
             }
         }
-        let commits: Vec<String> = drain(&mut rx_commit).iter().map(|b| { commits_total += 1; format!("OCommit {}", abs.block(b)) }).collect();
+        let commits: Vec<String> = step_commits.iter().map(|b| { commits_total += 1; format!("OCommit {}", abs.block(b)) }).collect();
         let mems: Vec<String> = drain(&mut rx_mempool).into_iter().map(|m| match m {
             mempool::ConsensusMempoolMessage::Cleanup(r) => format!("OMemCleanup {}", r),
             mempool::ConsensusMempoolMessage::Synchronize(ds, t) => { e.stat("out:memsync", 1); format!("OMemSync {} {}", abs.pay(&ds), abs.id(&t)) } }).collect();
@@ -489,6 +544,17 @@ async fn run_case(seed: u64, case: usize, script: Option<&str>, dbroot: &str, e:
         out.human.push(format!("{} -> {} [{} outputs] state=({},{},{},{})", human, res, outs.len(), r0, lv, lc, hq.round));
         if res == "KPanic" { e.stat("panic", 1); break; }
     }
+    // deliveries still in flight after the last dispatch (there are none when the core delivers before returning): attributed to an extra, event-less step
+    let mut late: Vec<Block> = vec![];
+    for _ in 0..2000 { tokio::task::yield_now().await; if let Ok(b) = rx_commit.try_recv() { late.push(b); } }
+    if !late.is_empty() {
+        e.stat("late_commits", late.len() as u64);
+        let (r0, lv, lc, hq) = core.verif_state();
+        let cs: Vec<String> = late.iter().map(|b| { commits_total += 1; format!("OCommit {}", abs.block(b)) }).collect();
+        out.evs.push("([], EvDigest 254)".to_string());
+        out.obs.push(format!("mkObs {} KOk ({}, {}, {}, {})", coq_list(&cs), r0, lv, lc, hq.round));
+        out.human.push(format!("(end of case) -> {} late commit(s)", late.len()));
+    }
     e.stat("out:commit", commits_total as u64); e.stat("out:vote", votes_total as u64);
     out.nontrivial = commits_total > 0 || votes_total > 0;
     out.defs = abs.defs.clone();
@@ -499,14 +565,13 @@ async fn run_case(seed: u64, case: usize, script: Option<&str>, dbroot: &str, e:
 
 fn main() {
     let o = opts();
-    std::panic::set_hook(Box::new(|_| {}));
-    let rt = tokio::runtime::Builder::new_current_thread().enable_all().start_paused(true).build().unwrap();
+    std::panic::set_hook(Box::new(|i| { if std::env::var("HSDBG").is_ok() { eprintln!("PANIC {}", i); } }));
     let dbroot = format!("{}/db", o.out);
     std::fs::create_dir_all(&dbroot).unwrap();
     let shards = 8usize;
     let mut emits: Vec<Emit> = (0..shards).map(|_| Emit::new("GTac Node Corr Monitors")).collect();
     let mut seen = std::collections::HashSet::new();
-    rt.block_on(async {
+    {
         // the scripted corpus runs first (cases 1000+), then the seeded random cases
         let scripted: Vec<(usize, Option<&str>)> = SCRIPTS.iter().enumerate().map(|(i, s)| (1000 + i, Some(*s))).collect();
         let random: Vec<(usize, Option<&str>)> = (0..o.cases).map(|k| (k, None)).collect();
@@ -518,16 +583,20 @@ fn main() {
         for (k, script) in list {
             if let Some(only) = o.only { if only != k { continue; } }
             let e = &mut emits[k % shards];
-            let (cfg, out) = run_case(o.seed, k, script, &dbroot, e, o.boost).await;
+            // a fresh runtime per case: dropping it ends every task of the case (and releases its RocksDB handles)
+            let rt = tokio::runtime::Builder::new_current_thread().enable_all().start_paused(true).build().unwrap();
+            let (cfg, out) = rt.block_on(run_case(o.seed, k, script, &dbroot, e, o.boost));
+            drop(rt);
             let stakes: Vec<String> = (0..cfg.n).map(|i| format!("({},{})", i, cfg.stakes[i])).collect();
             let defs = format!("{}Definition cmt := mkCommittee {}.\nDefinition evs : list (list N * Event) := {}.\nDefinition obs : list Obs := {}.\n",
                 out.defs, coq_list(&stakes), coq_list(&out.evs), coq_list(&out.obs));
             if out.nontrivial && seen.insert(out.evs.join(";")) { e.stat("distinct_nontrivial", 1); }
+            if ADMISSIBLE.with(|c| c.get()) { e.stat("admissible (within the fault model)", 1); }
             let c06 = CLEAN_LEADER.with(|c| c.get());
             let verdict = match c06 { Some(r) => format!("step_verdict cmt {} evs obs ++ [b2n (mon_c06_make obs {})]", cfg.me, r), None => format!("step_verdict cmt {} evs obs ++ [1]", cfg.me) };
-            e.case(k, &defs, &verdict, json!({"case": k, "script": script, "committee_stakes": cfg.stakes, "me": cfg.me, "events": out.human, "messages_hex": out.hexmsgs}));
+            e.case(k, &defs, &verdict, json!({"case": k, "script": script, "committee_stakes": cfg.stakes, "me": cfg.me, "admissible": ADMISSIBLE.with(|c| c.get()), "events": out.human, "messages_hex": out.hexmsgs}));
         }
-    });
+    }
     for (i, e) in emits.into_iter().enumerate() { e.finish(&o.out, &format!("step_{}", i), o.seed); }
     let _ = std::fs::remove_dir_all(&dbroot);
 }
